@@ -15,6 +15,7 @@
 //            decoded packet with the other codec   3 decode into a used packet after Reset()   4 written in clear,
 //            read by a reader holding a decryptor   5 UnmarshalPacket on sub-slices of one buffer   6 header accessors
 //            7 two codecs decoding two streams alternately, GC in between, packets compared at the end
+//            8 a protobuf body changed between encodes of the same packet object
 // input    (8 ver thrArg cipher keyseed pkt k)                    WritePacket into a writer that fails after k bytes,
 // observed ((enc) (zip) wres accepted wfailed wres2)             then the same packet (fresh object) into a good writer
 // input    (9 data k)                                            WriteLenData into such a writer
@@ -37,6 +38,8 @@ import (
 	"runtime"
 	"sync"
 
+	"google.golang.org/protobuf/proto"
+	"google.golang.org/protobuf/types/known/wrapperspb"
 	"qchen.fun/fatchoy"
 	"qchen.fun/fatchoy/codec"
 	"qchen.fun/fatchoy/packet"
@@ -589,6 +592,34 @@ func runVariant(in Sx) Sx {
 		if pn || bad {
 			return res(6, "header accessors disagree with the packet")
 		}
+	case 8: // a protobuf body changed between two encodes of the same packet: the wire carries the
+		// message as it is at encode time (with and without cipher, same and other codec)
+		p := PacketFromSx(in.At(6))
+		msg, ok := p.Body_.(*wrapperspb.BytesValue)
+		if !ok {
+			return res(0, "")
+		}
+		for round, e := range []codec.Encoder{enc, enc, other} {
+			if round > 0 {
+				msg.Value = append(append([]byte(nil), msg.Value...), byte(round), 0xEE)
+				if round == 2 && len(msg.Value) > 3 {
+					msg.Value = msg.Value[2:]
+				}
+			}
+			now, _ := proto.Marshal(msg)
+			frame, okw := encode(e, p, cidx)
+			if !okw {
+				return res(0, "")
+			}
+			q := packet.Make()
+			v := ver
+			if round == 2 {
+				v = 3 - ver
+			}
+			if !decode(e, frame, cidx, q) || !samePacket(v, orig, q, now) {
+				return res(6, "protobuf body: the frame does not carry the message as it was at encode time")
+			}
+		}
 	case 7: // two codecs, two streams, alternately; GC in between; compare at the end
 		var sa, sb []byte
 		var pa, pb []*packet.Packet
@@ -770,7 +801,7 @@ func genPacket(rng *Rng, ver, thr int, bodyLen int, kindHint int, out *Out) (Sx,
 	var body Sx
 	bk := kindHint
 	if bk < 0 {
-		bk = rng.PickInt(0, 1, 1, 1, 2, 3, 4, 5, 5)
+		bk = rng.PickInt(0, 1, 1, 1, 2, 3, 4, 5, 5, 9, 10)
 	}
 	if (bk == 1 || bk == 2) && bodyLen == 0 && rng.Bool() {
 		bk += 6 // typed nil []byte / empty string instead of an empty non-nil slice
@@ -798,6 +829,14 @@ func genPacket(rng *Rng, ver, thr int, bodyLen int, kindHint int, out *Out) (Sx,
 		if mask != 255 && bodyLen > 64 {
 			out.Count("body:compressible")
 		}
+	case 9, 10: // a protobuf message (wrapperspb.BytesValue / StringValue); the string one ASCII
+		mask := byte(255)
+		if bk == 10 {
+			mask = 0x7f
+		}
+		d, _ := DataSx(uint32(rng.Next()), bodyLen, mask, 65)
+		body = List(Int(int64(bk)), d)
+		out.Count("body:protobuf")
 	case 3:
 		v := rng.PickI64(0, 1, -1, 63, 64, -64, -65, math.MaxInt64, math.MinInt64, int64(rng.Next()), int64(rng.Next())>>uint(rng.Intn(64)))
 		body = List(Int(3), Int(v))
@@ -988,7 +1027,7 @@ func gen(a Args, out *Out) {
 			bl = rng.Intn(300)
 		}
 		cidx := 0
-		bk := rng.PickInt(1, 1, 2, 3, 4)
+		bk := rng.PickInt(1, 1, 2, 3, 4, 9, 9, 10)
 		if bk >= 3 && rng.Bool() {
 			cidx = 1 + rng.Intn(len(CipherNames)-1)
 		}
@@ -1026,13 +1065,16 @@ func gen(a Args, out *Out) {
 	if a.Thorough() {
 		nvar = 300
 	}
-	for variant := 1; variant <= 7; variant++ {
+	for variant := 1; variant <= 8; variant++ {
 		for i := 0; i < nvar; i++ {
 			ver := rng.PickInt(1, 2)
 			thr := rng.PickInt(0, 16, 1<<24)
-			bk := rng.PickInt(1, 1, 2, 3, 5)
+			bk := rng.PickInt(1, 1, 2, 3, 5, 9, 10)
 			if variant == 1 || variant == 7 {
 				bk = 1
+			}
+			if variant == 8 {
+				bk = 9
 			}
 			p, kd := genPacket(rng, ver, thr, rng.PickInt(0, 1, 9, 33, 64, 200, 5000), bk, out)
 			if kd != "plain" {
